@@ -269,6 +269,103 @@ impl<'ast> Visit<'ast> for SecretReaders {
     }
 }
 
+/// (C01/C15) seq accounting: in source order per function, every `Event { seq: <expr> }` literal whose
+/// seq expression dereferences a counter (`*seq`, `*self.seq`, `*req.seq`, possibly with arithmetic
+/// around it) and every `*counter += …`.
+#[derive(Clone, Debug)]
+enum SeqTok {
+    /// frame literal numbered from the counter; plain = the expression is exactly `*counter`
+    Use { counter: String, plain: bool },
+    /// `*counter += <integer literal>`
+    Bump { counter: String, k: u64 },
+    /// `*counter += <anything else>` (a batch of frames numbered elsewhere)
+    Batch { counter: String },
+}
+
+struct SeqAcct {
+    cur_fn: Vec<String>,
+    per_fn: BTreeMap<String, Vec<SeqTok>>,
+}
+
+struct FirstDeref {
+    found: Option<String>,
+}
+
+impl<'ast> Visit<'ast> for FirstDeref {
+    fn visit_expr_unary(&mut self, e: &'ast syn::ExprUnary) {
+        if matches!(e.op, syn::UnOp::Deref(_)) && self.found.is_none() {
+            self.found = Some(squash(&e.expr));
+        }
+        syn::visit::visit_expr_unary(self, e);
+    }
+}
+
+fn deref_target(e: &syn::Expr) -> Option<String> {
+    match e {
+        syn::Expr::Unary(u) if matches!(u.op, syn::UnOp::Deref(_)) => Some(squash(&u.expr)),
+        syn::Expr::Paren(p) => deref_target(&p.expr),
+        _ => None,
+    }
+}
+
+impl<'ast> Visit<'ast> for SeqAcct {
+    fn visit_item_mod(&mut self, m: &'ast syn::ItemMod) {
+        if m.ident == "tests" || m.ident == "verif_hooks" || m.ident == "verif_export" || m.attrs.iter().any(|a| { let t = a.to_token_stream().to_string().replace(' ', ""); t.contains("cfg(test)") || t.contains("cfg(rip_verif)") }) {
+            return;
+        }
+        syn::visit::visit_item_mod(self, m);
+    }
+    fn visit_item_fn(&mut self, f: &'ast syn::ItemFn) {
+        self.cur_fn.push(f.sig.ident.to_string());
+        syn::visit::visit_item_fn(self, f);
+        self.cur_fn.pop();
+    }
+    fn visit_impl_item_fn(&mut self, f: &'ast syn::ImplItemFn) {
+        self.cur_fn.push(f.sig.ident.to_string());
+        syn::visit::visit_impl_item_fn(self, f);
+        self.cur_fn.pop();
+    }
+    fn visit_expr_struct(&mut self, e: &'ast syn::ExprStruct) {
+        // `Event { seq: … }` and the input structs of frame builders (`…DumpInput { seq: … }`) alike
+        {
+            for f in &e.fields {
+                if let syn::Member::Named(i) = &f.member {
+                    if i == "seq" {
+                        let tok = match deref_target(&f.expr) {
+                            Some(c) => Some(SeqTok::Use { counter: c, plain: true }),
+                            None => {
+                                let mut fd = FirstDeref { found: None };
+                                fd.visit_expr(&f.expr);
+                                fd.found.map(|c| SeqTok::Use { counter: c, plain: false })
+                            }
+                        };
+                        if let (Some(t), Some(name)) = (tok, self.cur_fn.last()) {
+                            self.per_fn.entry(name.clone()).or_default().push(t);
+                        }
+                    }
+                }
+            }
+        }
+        syn::visit::visit_expr_struct(self, e);
+    }
+    fn visit_expr_binary(&mut self, e: &'ast syn::ExprBinary) {
+        if matches!(e.op, syn::BinOp::AddAssign(_)) {
+            if let Some(c) = deref_target(&e.left) {
+                let tok = match &*e.right {
+                    syn::Expr::Lit(syn::ExprLit { lit: syn::Lit::Int(n), .. }) => SeqTok::Bump { counter: c, k: n.base10_parse::<u64>().unwrap_or(0) },
+                    _ => SeqTok::Batch { counter: c },
+                };
+                if let Some(name) = self.cur_fn.last() {
+                    self.per_fn.entry(name.clone()).or_default().push(tok);
+                }
+            }
+        }
+        syn::visit::visit_expr_binary(self, e);
+    }
+}
+
+const SEQ_FILES: &[&str] = &["crates/ripd/src/session.rs", "crates/rip-tools/src/runtime.rs", "crates/ripd/src/tasks/mod.rs", "crates/ripd/src/checkpoints.rs"];
+
 /// (C04) the doubling-window tail loops of continuities.rs: `while tail_bytes <= MAX_TAIL_BYTES … {
 /// …; tail_bytes = (tail_bytes * 2).min(MAX_TAIL_BYTES); }`
 struct TailLoops {
@@ -1107,6 +1204,41 @@ fn main() {
     }
     lean.push_str("]\n\nend Rip.Gen.SecretReaders\n");
     write_if_changed(&out.join("SecretReaders.lean"), &lean);
+
+    // seq accounting (C01)
+    let mut lean = String::new();
+    lean.push_str("/- GENERATED by ripx from ripd/src/{session,tasks/mod,checkpoints}.rs and rip-tools/src/runtime.rs. Do not edit. -/\nnamespace Rip.Gen.SeqAccounting\n\n");
+    lean.push_str("/-- per function (outside test and hook modules), in source order: every struct literal with a field `seq: …` numbered from a dereferenced counter (`Event { … }` and the input structs of frame builders) and every `*counter += …`. Token = (FNV-1a 64 of the counter expression, kind, argument): kind 0 = frame literal (argument 1 iff the seq expression is exactly `*counter`), kind 1 = `+= <literal>` (argument = the literal), kind 2 = `+= <other expression>` -/\n");
+    lean.push_str("def table : List (Nat × List (Nat × Nat × Nat)) := [\n");
+    let mut rows: Vec<String> = Vec::new();
+    for f in SEQ_FILES {
+        let mut acct = SeqAcct { cur_fn: Vec::new(), per_fn: BTreeMap::new() };
+        match load(f, &mut parsed) {
+            Ok(()) => acct.visit_file(&parsed[*f]),
+            Err(e) => {
+                eprintln!("ripx: {e}");
+                std::process::exit(1);
+            }
+        }
+        for (name, toks) in &acct.per_fn {
+            let qual = format!("{}::{}", f.rsplit('/').next().unwrap_or(f).trim_end_matches(".rs"), name);
+            let ts: Vec<String> = toks
+                .iter()
+                .map(|t| match t {
+                    SeqTok::Use { counter, plain } => format!("({}, 0, {})", fnv64(counter.as_bytes()), *plain as u8),
+                    SeqTok::Bump { counter, k } => format!("({}, 1, {k})", fnv64(counter.as_bytes())),
+                    SeqTok::Batch { counter } => format!("({}, 2, 0)", fnv64(counter.as_bytes())),
+                })
+                .collect();
+            rows.push(format!("  ({}, [{}]) -- {qual}", fnv64(qual.as_bytes()), ts.join(", ")));
+        }
+    }
+    for (i, it) in rows.iter().enumerate() {
+        let (a, b) = it.split_once(" -- ").unwrap();
+        lean.push_str(&format!("{a}{} -- {b}\n", if i + 1 < rows.len() { "," } else { "" }));
+    }
+    lean.push_str("]\n\nend Rip.Gen.SeqAccounting\n");
+    write_if_changed(&out.join("SeqAccounting.lean"), &lean);
 
     if let Some(p) = json_out {
         let v: Value = json!({
